@@ -136,7 +136,16 @@ def build_tbl(
                     metadata, "0으로 나누려고 했습니다."
                 ) from None
         dividend, divider = [arg.value for arg in argv]
-        return AS.Float(math.fmod(dividend, divider))
+        try:
+            return AS.Float(math.fmod(dividend, divider))
+        except ValueError:
+            if divider == 0:
+                raise error.UnsuspectedHangeulDivisionError(
+                    metadata, "0으로 나누려고 했습니다."
+                ) from None
+            raise error.UnsuspectedHangeulArithmeticError(
+                metadata, f"{dividend}을 {divider}로 나눈 나머지를 구할 수 없습니다."
+            ) from None
 
     return {
         "ㄱ": _multiply,  # 곱셈
